@@ -643,7 +643,7 @@ class SmallStream(TokenStreamBase):
                 out.append({"toks": toks, "partials": {}, "nest": 100, "extra": False})
         # deeper, over the block skeleton only
         core = [ALPHABET[i] for i in (0, 5, 6, 9, 10, 11, 12, 13, 15, 16)]
-        D = ctx.scale(3, 5)
+        D = ctx.scale(3, 4)
         for seq in itertools.product(range(len(core)), repeat=D):
             out.append({"toks": normalise([core[i] for i in seq]), "partials": {}, "nest": 2 if (len(out) % 3 == 0) else 100, "extra": False})
         return out
